@@ -50,3 +50,12 @@ theorem sle_of_lt {w a b : Nat} (ha : a < 2 ^ (w - 1)) (hb : b < 2 ^ (w - 1)) :
   simp [sle, toInt_of_lt ha, toInt_of_lt hb]
 
 end C
+
+namespace C
+/-- `safe_unsigned_multiply`: the product; the C++ throws std::range_error when it
+    does not fit in `w` bits (never the case for the sector arithmetic it is used for,
+    whose operands are below 2^32). -/
+def umul (w : Nat) (a b : Nat) : Nat := (a * b) % 2 ^ w
+
+theorem umul_of_lt {w a b : Nat} (h : a * b < 2 ^ w) : umul w a b = a * b := Nat.mod_eq_of_lt h
+end C
